@@ -23,7 +23,7 @@ import (
 //     size from 128 bytes up) to the processor as a record of its own fabricates a login; and certificate logins
 //     whose key id has that length (the whole key id must arrive as userID).  audit pipe: a session of its own whose
 //     EXECVE records are 4-9 KiB long (the kernel's limit per record is about 7.5 KiB of arguments, auditd's 8970
-//     bytes), rendered by C14's oracle (render.go);
+//     bytes) and whose PATH records carry an executable path of 4-9 KiB, rendered by C14's oracle (render.go);
 //   - BURSTS: some hundred short records in ONE write(2) on either pipe (more than a page, in every second
 //     scenario more than the pipe's 64 KiB capacity), so that the reader finds more than one buffer's worth
 //     queued and its reads end in mid-record;
@@ -209,6 +209,13 @@ func addReaderLevel(r *hutil.Rand, sc *scenario) {
 				a.ArgBytes = 4100 + r.Intn(1000)
 			}
 			budget -= a.ArgBytes
+			if r.Chance(1, 3) {
+				// a PATH record of 4-9 KiB in the same event (the executable's path: the UserAction's object)
+				a.PathBytes = 4000 + r.Intn(5000)
+				if r.Bool() {
+					a.ArgBytes = 0
+				}
+			}
 			addAudit(a, user)
 			if r.Chance(1, 3) {
 				addAudit(auditItem{Role: "event", Type: hutil.Pick(r, eventTypes), PID: sp.PID, Ses: fmt.Sprint(sp.Ses), Session: si}, user)
